@@ -73,3 +73,14 @@ CHECKS["C13"] = {
     "design_ref": "5/C13",
     "assumptions": TRUST,
 }
+
+CHECKS["C17"] = {
+    "tests": [T("TestC17Grid", 1, 1, qshards=4, tshards=4), T("TestC17", 60, 1200)],
+    "level": "fault_enumeration",
+    "technique": "schedule enumeration through the verif hook between log append and head persistence (all release orders for k<=4) + property-based testing (rapid) of larger bursts; oracle = acknowledged entries distinct, all listed, all recovered after restart+Load",
+    "rule": "k goroutines each issue one write on the same store; the hook point store.addop.appended parks each writer after its append, the controller releases parked writers by a priority vector, waiting for each released call to return (so the persist order is the release order). TestC17Grid enumerates every priority permutation for k=2,3,4 on eventlog and keyvalue stores (64 cases); TestC17 draws k in 2..8, 0-3 sequential pre-writes, 1-2 bursts, any store type and a random priority permutation. Oracle: every successful call returned a distinct entry, all are in the log and in Values(), and after stopping the instance, restarting on the same disk and Load(-1) all are still listed. Writers held back by a lock (as the repair adds) make part of the order infeasible; this is counted (label), never reported. non-trivial = a writer was parked between append and persist while another write call was in flight; distinct = SHA-1 of the case JSON",
+    "level_text": "All k! release orders at the append/persist point for k<=4 are enumerated in both tiers; larger k sampled. Interleavings at other instructions are reached only by chance.",
+    "level_note": "The harness owns only the schedule point between Append and the _localHeads Put; trusted: go-ipfs-log's Append lock.",
+    "design_ref": "5/C17",
+    "assumptions": TRUST,
+}
